@@ -12,6 +12,7 @@
 EXTENDS WebSocket, Json
 
 CONSTANTS Mode, GenDepth, DrainFrom, BigLens,
+          PipeLens,   \* shapes: first-payload lengths of the pipelined scripts
           Full        \* shapes: the whole cross product (else type and variant are tied to the other parameters)
 VARIABLE hist
 gvars == <<vars, hist>>
@@ -22,7 +23,12 @@ Eff(m) == IF m = 0 THEN DefMax ELSE m
 Pay(n, s) == [i \in 1..n |-> (i * 7 + s * 13 + 3) % 256]
 Key(s) == IF s % 3 = 0 THEN <<0, 0, 0, 0>> ELSE IF s % 3 = 1 THEN <<18, 52, 86, 120>> ELSE <<255, 128, 1, 90>>
 
-Hdr(rc, rs, mc, ms) == [e |-> "hdr", realc |-> rc, reals |-> rs, maxc |-> mc, maxs |-> ms]
+\* chunkc / chunks: delivery granularity of the transport towards the client / the server (at most
+\* that many bytes per Read; 0 = everything buffered).  A transport parameter: the verdict ignores it.
+HdrK(rc, rs, mc, ms, kc, ks) == [e |-> "hdr", realc |-> rc, reals |-> rs, maxc |-> mc, maxs |-> ms, chunkc |-> kc, chunks |-> ks]
+Hdr(rc, rs, mc, ms) == HdrK(rc, rs, mc, ms, 0, 0)
+Chunks == <<0, 1, 2, 3, 5, 7>>
+ChunkOf(i) == Chunks[(i % 6) + 1]
 OSend(r, op, n, api) == [e |-> "send", who |-> r, op |-> op, len |-> n, api |-> api]
 OPing(r, n) == [e |-> "ping", who |-> r, op |-> OpPing, len |-> n]
 ORecv(r) == [e |-> "recv", who |-> r]
@@ -39,7 +45,7 @@ Other(op) == IF op = OpText THEN OpBin ELSE OpText
 
 \* r writes a message of n bytes towards a peer with limit lim, a PING, and a small message
 Boundary(r, op, n, lim) ==
-    <<Hdr(TRUE, TRUE, IF r = "s" THEN lim ELSE 0, IF r = "c" THEN lim ELSE 0),
+    <<HdrK(TRUE, TRUE, IF r = "s" THEN lim ELSE 0, IF r = "c" THEN lim ELSE 0, ChunkOf(n + lim + op), ChunkOf(n + lim + op + 3)),
       OSend(r, op, n, IF (n + op) % 2 = 0 THEN "send" ELSE "write"),
       OPing(r, n % 126),
       OSend(r, Other(op), 3, "send"),
@@ -48,7 +54,7 @@ Boundary(r, op, n, lim) ==
 \* a raw peer sends a good message, then a frame with the wrong masking, then a good one
 Violation(r, op, n, k) ==
     LET good == MustMask(Peer(r)) IN
-    <<Hdr(r = "c", r = "s", 0, 0),
+    <<HdrK(r = "c", r = "s", 0, 0, ChunkOf(op + n + k), ChunkOf(op + n + k)),
       OInj(r, TRUE, OpText, good, 5, k), OInj(r, TRUE, OpPing, good, 2, k + 1),
       OInj(r, TRUE, op, ~good, n, k + 2), OInj(r, TRUE, OpBin, good, 3, k)>>
     \o (IF k % 2 = 0 THEN <<ORecv(r), ORecv(r)>> ELSE <<ORecv(r), OSend(r, OpBin, 4, "send"), ORecv(r)>>)
@@ -56,13 +62,22 @@ Violation(r, op, n, k) ==
 \* fragments, control frames in between, an unsolicited PONG, a CLOSE
 Fragments(r, lim, n, op) ==
     LET m == MustMask(Peer(r)) IN
-    <<Hdr(r = "c", r = "s", lim, lim),
+    <<HdrK(r = "c", r = "s", lim, lim, ChunkOf(lim + n + op), ChunkOf(lim + n + op)),
       OInj(r, FALSE, op, m, 3, 1), OInj(r, TRUE, OpPing, m, 4, 2), OInj(r, FALSE, OpCont, m, n, 3),
       OInj(r, TRUE, OpPong, m, 3, 4), OInj(r, TRUE, OpCont, m, 0, 5), OInj(r, TRUE, Other(op), m, 2, 6),
       OInj(r, TRUE, OpPing, m, 125, 7), OInj(r, TRUE, OpClose, m, 2, 8),
       ORecv(r), ORecv(r), ORecv(r), OSend(r, OpText, 1, "write"), ORecv(r), ORecv(r)>>
 
+\* Several frames are queued before the receiver reads, everything buffered up front: the
+\* receiver's bufio refills at its own 4096-byte boundaries, which the sweep of the first
+\* payload length moves across every byte of the second frame's header and masking key.
+Pipelined(r, n) ==
+    <<Hdr(TRUE, TRUE, 0, 0),
+      OSend(r, 1 + (n % 2), n, IF n % 3 = 0 THEN "write" ELSE "send"), OSend(r, 2 - (n % 2), 5, "send"),
+      OPing(r, 3), ORecv(Peer(r)), ORecv(Peer(r)), ORecv(Peer(r))>>
+
 Scripts ==
+    {Pipelined(r, n) : r \in Roles, n \in PipeLens} \cup
     {Boundary(c[1], c[2], c[3], c[4]) : c \in {x \in Roles \X DataOps \X Lens8 \X (UNION {LimsFor(y) : y \in Lens8}) :
                                                  x[4] \in LimsFor(x[3]) /\ (Full \/ x[2] = 1 + ((x[3] + x[4] + (IF x[1] = "c" THEN 0 ELSE 1)) % 2))}}
     \cup {Violation(c[1], c[2], c[3], c[4]) : c \in {x \in Roles \X {OpText, OpBin, OpPing, OpClose, OpCont} \X {0, 2, 125} \X {0, 1} :
@@ -70,8 +85,8 @@ Scripts ==
     \cup {Fragments(r, lim, n, op) : r \in Roles, lim \in {0, 125}, n \in {125, 126}, op \in DataOps}
 
 (* ------------------------------------------------------------------ walk *)
-Configs == {Hdr(TRUE, TRUE, 0, 0), Hdr(TRUE, TRUE, 125, 126), Hdr(TRUE, TRUE, 1, 200),
-            Hdr(FALSE, TRUE, 0, 126), Hdr(TRUE, FALSE, 125, 0)}
+Configs == {Hdr(TRUE, TRUE, 0, 0), Hdr(TRUE, TRUE, 125, 126), HdrK(TRUE, TRUE, 1, 200, 1, 3), HdrK(TRUE, TRUE, 0, 0, 2, 5),
+            Hdr(FALSE, TRUE, 0, 126), HdrK(TRUE, FALSE, 125, 0, 7, 0), HdrK(FALSE, TRUE, 0, 126, 0, 1)}
 
 Rec(x) == hist' = Append(hist, x)
 Pl(n) == [len |-> n]
